@@ -449,6 +449,17 @@ def run_whatshap(
                     "read list file contains no information about this"
                 )
 
+        # The changed-genotype and recombination lists cover all chromosomes and
+        # families, so they are opened once for the whole run (like the read list)
+        gtchange_list_file = None
+        if gtchange_list_filename:
+            gtchange_list_file = stack.enter_context(open(gtchange_list_filename, "w"))
+            write_changed_genotypes_header(gtchange_list_file)
+        recombination_list_file = None
+        if recombination_list_filename:
+            recombination_list_file = stack.enter_context(open(recombination_list_filename, "w"))
+            write_recombination_list_header(recombination_list_file)
+
         with timers("parse_phasing_vcfs"):
             # TODO should this be done in PhasedInputReader.__init__?
             phased_input_reader.read_vcfs()
@@ -615,10 +626,10 @@ def run_whatshap(
                     )
                     log_component_stats(overall_components, len(accessible_positions))
 
-                if recombination_list_filename:
+                if recombination_list_file:
                     assert transmission_vector is not None
                     n_recombinations = write_recombination_list(
-                        recombination_list_filename,
+                        recombination_list_file,
                         chromosome,
                         accessible_positions,
                         overall_components,
@@ -655,9 +666,9 @@ def run_whatshap(
                     assert distrust_genotypes
                     logger.info("Changed %d genotypes while writing VCF", len(changed_genotypes))
 
-            if gtchange_list_filename:
+            if gtchange_list_file:
                 logger.info("Writing list of changed genotypes to %r", gtchange_list_filename)
-                write_changed_genotypes(gtchange_list_filename, changed_genotypes)
+                write_changed_genotypes(gtchange_list_file, changed_genotypes)
 
             logger.debug("Chromosome %r finished", chromosome)
 
@@ -951,27 +962,43 @@ def find_mendelian_conflicts(trios: Sequence[Trio], variant_table: VariantTable)
     return mendelian_conflicts
 
 
-def write_changed_genotypes(gtchange_list_filename, changed_genotypes):
-    with open(gtchange_list_filename, "w") as f:
+def write_changed_genotypes_header(f):
+    print("#sample", "chromosome", "position", "REF", "ALT", "old_gt", "new_gt", sep="\t", file=f)
+
+
+def write_changed_genotypes(f, changed_genotypes):
+    """Append the changed genotypes of one chromosome to the open file f"""
+    for changed_genotype in changed_genotypes:
         print(
-            "#sample", "chromosome", "position", "REF", "ALT", "old_gt", "new_gt", sep="\t", file=f
+            changed_genotype.sample,
+            changed_genotype.chromosome,
+            changed_genotype.variant.position,
+            changed_genotype.variant.reference_allele,
+            changed_genotype.variant.alternative_allele,
+            repr(changed_genotype.old_gt),
+            repr(changed_genotype.new_gt),
+            sep="\t",
+            file=f,
         )
-        for changed_genotype in changed_genotypes:
-            print(
-                changed_genotype.sample,
-                changed_genotype.chromosome,
-                changed_genotype.variant.position,
-                changed_genotype.variant.reference_allele,
-                changed_genotype.variant.alternative_allele,
-                repr(changed_genotype.old_gt),
-                repr(changed_genotype.new_gt),
-                sep="\t",
-                file=f,
-            )
+
+
+def write_recombination_list_header(f: IO) -> None:
+    print(
+        "#child_id",
+        "chromosome",
+        "position1",
+        "position2",
+        "transmitted_hap_father1",
+        "transmitted_hap_father2",
+        "transmitted_hap_mother1",
+        "transmitted_hap_mother2",
+        "recombination_cost",
+        file=f,
+    )
 
 
 def write_recombination_list(
-    path: Union[str, Path],
+    f: IO,
     chromosome: str,
     accessible_positions: Sequence[int],
     overall_components: Mapping[int, int],
@@ -979,7 +1006,11 @@ def write_recombination_list(
     transmission_vector: Sequence[int],
     trios: Sequence[Trio],
 ) -> int:
-    """Return total number of recombinations"""
+    """
+    Append the recombination events of one chromosome and family to the open file f.
+
+    Return total number of recombinations
+    """
 
     transmission_vector_trio: Mapping[str, MutableSequence[int]] = defaultdict(list)
     for transmission_vector_value in transmission_vector:
@@ -987,41 +1018,28 @@ def write_recombination_list(
             value = transmission_vector_value % 4
             transmission_vector_value = transmission_vector_value // 4
             transmission_vector_trio[trio.child].append(value)
-    with open(path, "w") as f:
-        n = 0
-        print(
-            "#child_id",
-            "chromosome",
-            "position1",
-            "position2",
-            "transmitted_hap_father1",
-            "transmitted_hap_father2",
-            "transmitted_hap_mother1",
-            "transmitted_hap_mother2",
-            "recombination_cost",
-            file=f,
+    n = 0
+    for trio in trios:
+        recombination_events = find_recombination(
+            transmission_vector_trio[trio.child],
+            overall_components,
+            accessible_positions,
+            recombination_costs,
         )
-        for trio in trios:
-            recombination_events = find_recombination(
-                transmission_vector_trio[trio.child],
-                overall_components,
-                accessible_positions,
-                recombination_costs,
+        for e in recombination_events:
+            print(
+                trio.child,
+                chromosome,
+                e.position1 + 1,
+                e.position2 + 1,
+                e.transmitted_hap_father1,
+                e.transmitted_hap_father2,
+                e.transmitted_hap_mother1,
+                e.transmitted_hap_mother2,
+                e.recombination_cost,
+                file=f,
             )
-            for e in recombination_events:
-                print(
-                    trio.child,
-                    chromosome,
-                    e.position1 + 1,
-                    e.position2 + 1,
-                    e.transmitted_hap_father1,
-                    e.transmitted_hap_father2,
-                    e.transmitted_hap_mother1,
-                    e.transmitted_hap_mother2,
-                    e.recombination_cost,
-                    file=f,
-                )
-            n += len(recombination_events)
+        n += len(recombination_events)
     return n
 
 
